@@ -14,11 +14,17 @@ BOUNDS = {
     "quick": "the 15 divisors of 360 between 5 and 60 as angular step (thorough: all 19 from 1 degree); sample = 3 distinct symbolic points, each "
              "repeated 17-20 times (n = 51..60, ties allowed), alpha in {0.05, 0.1, 0.25}; order statistics by an "
              "ite sorting network (no forks), trigonometric values are numpy's doubles for the concrete direction grid",
-    "thorough": "4 distinct points for alpha <= 0.1, 3 for alpha in {0.25, 0.3} (the 4-point queries there were not decided reliably), five alpha values, n up to 80",
+    "thorough": "4 distinct points for steps >= 5 degrees and alpha <= 0.1, otherwise 3 (the 4-point queries with 4 equal groups "
+                "around the quantile and those for 90..360 directions were not decided reliably), five alpha values, n up to 80",
 }
+BOUNDS["quick"] += ("; plus two CONCRETE large-sample runs (60000 points at 1 degree, 300000 points at 5 degrees: every "
+                    "edge against np.quantile) - sampling at two sizes, listed separately, not part of the solver's verdict")
+BOUNDS["thorough"] += "; the same two concrete large-sample runs"
 OUTSIDE = [
     "rounding of the line-intersection formula (Real mode, 1e-6 relative tolerance on the tangent-line offset)",
     "samples with more than 4 distinct points (the computation is per direction and per vertex)",
+    "code paths that depend on the sample size (blocking, chunking): not reachable with 51-80 symbolic points; two "
+    "concrete large samples are run as a guard (obligation large_sample), which is sampling and claimed as such",
 ]
 ASSUMPTIONS = ["np.quantile 'linear' interpolation rule as implemented in vf/npx.py (validated against numpy)",
                "lemma instance per direction: the projected quantile lies in [-10 sqrt 2, 10 sqrt 2] for points of [0,10]^2"]
